@@ -67,6 +67,7 @@ pub fn required_classes(id: &str) -> Vec<String> {
             "aiger-symbol-j",
             "aiger-symbol-f",
             "aiger-multi-line-comment",
+            "aiger-string-over-16k",
             "aiger-justice-section",
             "aiger-fairness-section",
             "btor2-const-b",
